@@ -37,12 +37,16 @@ func gcsWorkerMain() {
 			return
 		}
 		f := strings.Fields(line)
-		if len(f) == 4 && f[0] == "eval" {
+		if (len(f) == 4 || len(f) == 5) && f[0] == "eval" {
 			var src []byte
 			if f[1] != "-" {
 				src, _ = hex.DecodeString(f[1])
 			}
-			gcsEvalRequest(out, src, f[2], f[3])
+			world := "-"
+			if len(f) == 5 {
+				world = f[4]
+			}
+			gcsEvalRequest(out, src, f[2], f[3], world)
 			fmt.Fprintf(out, ".\n")
 			out.Flush()
 			continue
@@ -316,6 +320,9 @@ func (g gcsComp) Exec(c *wire.Case, w *wire.Writer) {
 		req := h
 		if op.Name == "eval" {
 			req = h + " " + op.Str("calls") + " " + op.Str("draws")
+			if wd := op.Str("world"); wd != "" {
+				req += " " + wd
+			}
 		}
 		lines, status := wk.ask(op.Name, req, time.Duration(5000+len(h)/10)*time.Millisecond)
 		if status != "" {
@@ -486,6 +493,10 @@ func (g gcsComp) Gen(r *rand.Rand, tier string, n int) []*wire.Case {
 	add("d-unary-call", "!f(x);", "let y = - g(1, 2);", "a && !done(t);", "!f(x)(y);", "-f(x) * 2;", "!(f)(x);", "! !f(x);", "- -x(1);", "f(x)(y)(z);", "(a + b)(c);", "fn(a){ return a; }(1);", "[1](2);")
 	add("d-bad-token-in-map", "[a abcdefghijk];", "let m = [1 \"hello, world\"];", "print([0.5 12345678901]);", "[x fallthrough];", "[a abcdefghij];", "[1 2];",
 		"let m = [k = 1 second_element_without_comma];", "f([1, 2 \"a long string literal\"]);", "[very_long_identifier_name = ];", "[1, 2, 3 continue];")
+	add("d-rare-forms", "switch 1 { default print(1); }", "switch 1 { default: print(1); default: print(2); }", "let i = 5; for i = 0; i < 3; i = i + 1 { print(i); }", "for i = 0; i < 3; { }",
+		"for x; x < 3; x = x + 1 { }", "fn f(a, a) { return a; }", "fn f(a, b, a) { return a; }", "let g = fn(a, a) { return a; };", "break 1;", "continue", "fallthrough;", "f(;", "f);", "a(b)(;",
+		"x = = 1;", "1 = x;", "let true = 1;", "true = 1;", "false;", "null = 2;", "- ;", "! ;", "!;", "x !;", "(;", ");", "();", "{", "}", "{}", "{;}", ";;", "case 1: x;", "default: x;", "else { }", "if x { } else", "if x { } else if { }",
+		"while x { } else { }", "return 1", "return", "return; return;", "let x = fn;", "let x = fn();", "let x = fn() { };", "fn f() { fn g() { return 1; } return g(); }")
 	add("d-ops", "= == > >= < <= <> != ! && || & |", "a&&b||c", "a<>b", "!a", "!=")
 	add("d-missing-parts", "let x = (1 + 2;", "let x = ; ;", "let x = ;", "let = 1;", "let x 1;", "x = ;", "if x { y = 1; ", "if { }", "while { }", "fn (a) { }", "fn f(a { }", "fn f(a,) { }",
 		"switch x { case : y; }", "switch x { y; }", "for let i = 0 i < 3 { }", "f(1,;", "f(1 2);", "[1, 2", "[a = ]", "return ;", "let x = 1 + ;", "let x = * 2;", "x = (;", "let x = ();")
